@@ -181,6 +181,9 @@ pub fn check_profiles(cfg: &Config, profiles: &[&str]) -> CheckResult {
     if sizes.len() >= 128 {
         cls |= 256;
     }
+    if sizes.len() >= 30_000 {
+        cls |= 1024;
+    }
     if any_empty && sizes.iter().fold(1f64, |a, s| a * (*s).max(1) as f64) >= 4294967296.0 {
         cls |= 512;
     }
@@ -194,7 +197,7 @@ pub fn check(cfg: &Config) -> CheckResult {
     check_profiles(cfg, &PROFILES)
 }
 
-pub const CLASSES: &[&str] = &["blocked_run_ge_10k", "blocked_run_ge_100k", "empty_range", "range_over_255", "size_multiple_of_256", "three_plus_players", "unscoped_full_drain", "more_players_than_a_deck_seats", "player_count_ge_128", "empty_range_beside_product_over_2_32"];
+pub const CLASSES: &[&str] = &["blocked_run_ge_10k", "blocked_run_ge_100k", "empty_range", "range_over_255", "size_multiple_of_256", "three_plus_players", "unscoped_full_drain", "more_players_than_a_deck_seats", "player_count_ge_128", "empty_range_beside_product_over_2_32", "thirty_thousand_plus_players"];
 
 /// a range of `size` combos that all contain `card` (max 51)
 fn holding(card: u8, size: usize, seed: u64) -> RangeSpec {
@@ -255,6 +258,14 @@ pub fn strategy(slot_budget: u128) -> impl Strategy<Value = Config> {
             }
             Config { flop, ranges, scope: if full { None } else { Some((0, 1, 2, 3)) } }
         }),
+        // I: absurdly many players (tens of thousands) in a two-position window: the work per
+        //    next() call - and any recursion over players - grows with the player count
+        1 => (flop_strategy(), prop_oneof![Just(1_000usize), Just(30_000usize), Just(65_536usize), Just(100_000usize)], any::<u64>()).prop_map(|(flop, n, seed)| {
+            let a = sized_range(1, seed, false);
+            let b = sized_range(1, seed ^ 0x9999, false);
+            let ranges: Vec<RangeSpec> = (0..n).map(|i| if i % 2 == 0 { a.clone() } else { b.clone() }).collect();
+            Config { flop, ranges, scope: Some((0, 1, 0, 3)) }
+        }),
         // H: several big ranges (their sizes multiply past 2^32 / 2^64) and one empty range: the
         //    enumeration must simply be empty
         2 => (flop_strategy(), 3usize..=24, prop_oneof![Just(1326usize), Just(1024usize), Just(256usize), Just(65536usize), 16usize..1326], any::<u64>(), 0usize..25, any::<bool>()).prop_map(|(flop, n, size, seed, seat, full)| {
@@ -296,7 +307,7 @@ pub fn strategy(slot_budget: u128) -> impl Strategy<Value = Config> {
 }
 
 pub fn run(ctx: &mut Ctx) {
-    ctx.rule = "proptest configurations as data, each drained in a child process on a 2 MiB thread, once per build profile (release: wrapping arithmetic; dbgchk: espada at opt-level 0 with overflow checks and debug assertions): narrow range holding the first deck cards beside wide ranges inside a window of the first turn rows (longest blocked runs), narrow/wide/wide, one player of sizes {0,1,2,255,256,257,511,512,513,768,1024,1326,random}, empty range at any seat, ranges consisting only of flop-card combos, 7-300 single-combo players (23/24/127/128/129/255/256/257 among them), 3-24 big ranges (sizes multiplying past 2^32 and 2^64) with one empty range at any seat, moderate full drains. Violation = child panics / dies on a signal (stack overflow) / yields more showdowns than odometer slots / yields anything with an empty range. Non-trivial = order-independent lower bound of the longest blocked run >= 10,000 slots, or a size in {0,255,256,257,>=512}, or >= 24 players; distinct by configuration.".into();
+    ctx.rule = "proptest configurations as data, each drained in a child process on a 2 MiB thread, once per build profile (release: wrapping arithmetic; dbgchk: espada at opt-level 0 with overflow checks and debug assertions): narrow range holding the first deck cards beside wide ranges inside a window of the first turn rows (longest blocked runs), narrow/wide/wide, one player of sizes {0,1,2,255,256,257,511,512,513,768,1024,1326,random}, empty range at any seat, ranges consisting only of flop-card combos, 7-300 single-combo players (23/24/127/128/129/255/256/257 among them), 1,000-100,000 single-combo players in a two-position window, 3-24 big ranges (sizes multiplying past 2^32 and 2^64) with one empty range at any seat, moderate full drains. Violation = child panics / dies on a signal (stack overflow) / yields more showdowns than odometer slots / yields anything with an empty range. Non-trivial = order-independent lower bound of the longest blocked run >= 10,000 slots, or a size in {0,255,256,257,>=512}, or >= 24 players; distinct by configuration.".into();
     ctx.assumptions = vec![
         "a hang that yields nothing can only hit the watchdog (exit 2, inconclusive), never a violation".into(),
         "debug = cargo's dev settings for espada (opt-level 0, overflow checks, debug assertions); third-party crates are optimised".into(),
